@@ -359,6 +359,18 @@ impl C08Check {
             _ if kind == "budget" && !budget_fired => {
                 return Ok(Outcome { fired: false, budget_points_in_fault_cycle: points });
             }
+            Ok(()) if matches!(kind, "read_err" | "write_err") => {
+                // the driver call did fail (the driver logged it), yet the cycle reports success
+                let log = drivers.lock().unwrap().log[window_start..].to_vec();
+                let failed = log.iter().any(|e| matches!(e, DriverEvent::ReadErr { .. } | DriverEvent::WriteErr { .. }));
+                if failed {
+                    return Err(Violation::new(
+                        format!("latch/driver-error-ignored/{kind}"),
+                        format!("driver {fdriver} of {n_drivers} failed its {} call but the cycle returned Ok and the resource is not faulted; log: {}", if kind == "read_err" { "read" } else { "write" }, render_log(&log)),
+                    ));
+                }
+                return Ok(Outcome { fired: false, budget_points_in_fault_cycle: points });
+            }
             Ok(()) => {
                 // the armed fault did not fire (budget point beyond the cycle's statements)
                 return Ok(Outcome { fired: false, budget_points_in_fault_cycle: points });
